@@ -387,6 +387,26 @@ static int message_fault(uint8_t type, const uint8_t *pay, uint32_t len, int *ne
         v[6] = TAG_ARRAY; v[7] = TAG_INT; u = 1; memcpy(v + 8, &u, 4);
         v[12] = TAG_INT; memset(v + 13, 0, 4); vl = 17;
     }
+    else if (sscanf(f, "val_nest_%u", &n) == 1 || sscanf(f, "val_badsized_%u", &n) == 1) {
+        /* val_nest_N: N nested one-element array headers around a truncated int (the decoder recurses per level);
+         * val_badsized_N: an undecodable value (bad tag) in a reply of N bytes (buffers are chosen by size) */
+        int nest = !strncmp(f, "val_nest_", 9);
+        uint32_t bl = nest ? 6u * n + 5u : (n ? n : 1u);
+        uint8_t *b = malloc(bl);
+        if (!b) die(3, "HARNESS oom");
+        if (nest) {
+            for (uint32_t i = 0; i < n; i++) {
+                b[6 * i] = TAG_ARRAY; b[6 * i + 1] = (i + 1 < n) ? TAG_ARRAY : TAG_INT; u = 1; memcpy(b + 6 * i + 2, &u, 4);
+            }
+            b[6 * n] = TAG_INT; memset(b + 6 * n + 1, 0, 4);
+        } else {
+            memset(b, 'x', bl);
+            b[0] = 0xEE;
+        }
+        send_msg(COP_MSG_FFI_RESULT, b, bl);
+        free(b);
+        return 1;
+    }
     else if (!strcmp(f, "val_wrong_type")) {
         /* a perfectly decodable value of another type than the one the call returns */
         if (len >= 1 && pay[0] == TAG_INT) { v[0] = TAG_STRING; u = 4; memcpy(v + 1, &u, 4); memcpy(v + 5, "oops", 4); vl = 9; }
